@@ -678,7 +678,7 @@ fn w4_hostile(ctx: &mut Ctx) {
 
 fn w_edit_pairs(ctx: &mut Ctx, tier: Tier) {
     // all (len_subject, len_operand) <= L x lattice values x {append, prepend, insert at every i} per type pair
-    let l = tier.pick(4, 12, 20);
+    let l = tier.pick(4, 12, 16);
     let mut rng = Rng::derive(ctx.seed, 0x0707, 0);
     for ta in 0..NTYPES {
         for tb in 0..NTYPES {
@@ -737,6 +737,42 @@ fn w_edit_pairs(ctx: &mut Ctx, tier: Tier) {
     }
 }
 
+/// Deterministic grid for C18: every boundary length x reserve amount / with_capacity size, then one operation of
+/// each class on the spare-capacity vector, then shrink_to_fit (post-conditions and the per-step differential apply).
+fn w_capacity_grid(ctx: &mut Ctx, tier: Tier) {
+    let mut rng = Rng::derive(ctx.seed, 0x1818, 0);
+    for ty in [IDX_BVD, IDX_BV] {
+        for n in gen::boundary_lens(64, 8, None, tier.pick(130, 260, 400)) {
+            if !ctx.mine() {
+                continue;
+            }
+            for k in [1usize, 63, 64, 65, 127, 128, 129, 200] {
+                for rep in 0..tier.pick(1, 2, 6) {
+                    let bits = match rep {
+                        0 => vec![true; n],
+                        _ => gen::random_bits(n, &mut rng),
+                    };
+                    let init = Spec::set(ty, bits);
+                    let follow = gen_step(ty, n, Mode::Capacity, 400, &mut rng);
+                    let ops: Vec<Vec<Step>> = vec![
+                        vec![Step::Reserve(k), Step::Shrink],
+                        vec![Step::Reserve(k), Step::Rot(rep % 2 == 0, if n >= 64 { 64 } else { n / 2 }), Step::Rot(true, n), Step::Shrink],
+                        vec![Step::Reserve(k), Step::ShIn(true, true), Step::ShIn(false, true), Step::Not(rep % 2 == 0), Step::Shrink],
+                        vec![Step::Reserve(k), Step::Resize(n + k / 2, true), Step::SignExtend(n + k), Step::Shrink],
+                        vec![Step::Reserve(k), Step::Push(true), Step::Pop, Step::Shrink],
+                        vec![Step::Reserve(k), follow.clone(), Step::Shrink, Step::Reserve(1), Step::Shrink],
+                        vec![Step::WithCapacity(n + k), Step::Resize(n, true), Step::Shrink],
+                        vec![Step::Resize(n + k, false), Step::Truncate(n), Step::Shrink],
+                    ];
+                    for steps in ops {
+                        judge(ctx, &history_case(&init, &steps), "W-capacity-grid");
+                    }
+                }
+            }
+        }
+    }
+}
+
 fn w_growth(ctx: &mut Ctx, tier: Tier) {
     let targets: Vec<usize> = match tier {
         Tier::Tiny => vec![300],
@@ -769,10 +805,11 @@ pub fn run(ctx: &mut Ctx) {
         "C07" => {
             w_edit_pairs(ctx, tier);
             w1_two_step(ctx, tier);
-            w3_histories(ctx, tier.pick(60, 8_000, 200_000), tier.pick(15, 60, 300), tier.pick(200, 400, 900));
+            w3_histories(ctx, tier.pick(60, 8_000, 60_000), tier.pick(15, 60, 200), tier.pick(200, 400, 900));
             w_growth(ctx, tier);
         }
         "C18" => {
+            w_capacity_grid(ctx, tier);
             w3_histories(ctx, tier.pick(60, 120_000, 1_500_000), tier.pick(15, 60, 300), tier.pick(200, 400, 900));
             w4_hostile(ctx);
             w_growth(ctx, tier);
@@ -793,5 +830,5 @@ pub const REQUIRED_C07: &[&str] = &[
 ];
 pub const REQUIRED_C18: &[&str] = &[
     "switch:inline->heap", "switch:heap->inline", "cap:with_capacity", "cap:reserve", "cap:shrink_to_fit",
-    "cap:shrink-after-truncate", "capdiff:arith", "capdiff:logic", "capdiff:edit", "capdiff:splice", "growth-chain-completed",
+    "cap:shrink-after-truncate", "capdiff:arith", "capdiff:logic", "capdiff:edit", "capdiff:splice", "capdiff:shift", "growth-chain-completed",
 ];
